@@ -32,7 +32,8 @@ nvars == <<vars, l, N>>
 NoRec == [has |-> FALSE, partial |-> FALSE, test |-> FALSE]
 N0 == [my |-> [partial |-> FALSE, test |-> FALSE], modes |-> [t \in Topics |-> "none"], flood |-> FALSE,
        proto |-> [p \in Peers |-> ""], up |-> [p \in Peers |-> FALSE], inOpen |-> [p \in Peers |-> FALSE],
-       fresh |-> [p \in Peers |-> FALSE], rec |-> [p \in Peers |-> NoRec], subs |-> {}]
+       fresh |-> [p \in Peers |-> FALSE], rec |-> [p \in Peers |-> NoRec], subs |-> {},
+       pend |-> {}]     \* partial RPCs queued for a peer whose outbound stream was down: they arrive when it is back
 
 Drift(kind) == PrintT(<<"DRIFT", ToJson([kind |-> kind, scn |-> E.scn, i |-> E.i, a |-> E.a])>>)
 Pairs(q) == {<<q[i][1], q[i][2]>> : i \in DOMAIN q}
@@ -74,8 +75,11 @@ MyReq(j, t) == Joined(j, t) /\ N.modes[t] = "req"
 MySup(j, t) == Joined(j, t) /\ N.modes[t] \in {"req", "sup"}
 PeerReq(n, p, t) == n.my.partial /\ \E s \in n.subs : s.p = p /\ s.t = t /\ s.req
 PeerSup(n, p, t) == n.my.partial /\ \E s \in n.subs : s.p = p /\ s.t = t /\ s.sup
-Suppressed(n, j, p, t) == MySup(j, t) /\ PeerReq(n, p, t)
 HasExt(n, p) == n.rec[p].has /\ n.rec[p].partial
+Suppressed(n, j, p, t) == MySup(j, t) /\ PeerReq(n, p, t)
+\* (a peer that requests partial messages WITHOUT having advertised the extension contradicts itself: the code as found
+\* treats it as a partial peer, X04-F5; serving it in full is just as acceptable, so X04.j demands nothing for it)
+PartialPeer(n, j, p, t) == Suppressed(n, j, p, t) /\ HasExt(n, p)
 \* partialMessageRouter.MeshPeers as meant / the additional members the code as found lets through (X04-F5)
 BasePeers(t) == IF MeshOf(E.premesh, t) # {} THEN MeshOf(E.premesh, t)
                 ELSE IF MeshOf(E.prefanout, t) # {} THEN MeshOf(E.prefanout, t)
@@ -88,8 +92,10 @@ ReqSet(n) == {<<p, t>> \in Peers \X Topics : PeerReq(n, p, t)}
 (* ---------------------------------------------------------------- frames *)
 Frames(p) == SelectSeq(E.frames, LAMBDA f : f.p = p)
 PartOf(f) == Rpc(f.p, f.part.t, f.part.g, f.part.hasMsg, SeqSet(f.part.msg), f.part.hasMeta, SeqSet(f.part.meta))
-ObsPartial == {PartOf(E.frames[i]) : i \in {j \in DOMAIN E.frames : E.frames[j].part.present}}
-NPartialFrames == Cardinality({j \in DOMAIN E.frames : E.frames[j].part.present})
+ObsPartialAll == {PartOf(E.frames[i]) : i \in {j \in DOMAIN E.frames : E.frames[j].part.present}}
+\* what this step has to explain: everything but the late arrivals of earlier steps
+ObsPartial == ObsPartialAll \ N.pend
+NPartialFrames == Cardinality({j \in DOMAIN E.frames : E.frames[j].part.present /\ PartOf(E.frames[j]) \notin N.pend})
 ObsCBs == ObsCB
 ObsHasState(p) == (\E i \in DOMAIN E.groups : \E j \in DOMAIN E.groups[i].ps : E.groups[i].ps[j].p = p)
                   \/ (\E i \in DOMAIN E.ctr : \E j \in DOMAIN E.ctr[i].per : E.ctr[i].per[j].p = p /\ E.ctr[i].per[j].n > 0)
@@ -97,8 +103,13 @@ RefHasState(s, p) == (\E x \in TG : At(s, x).live /\ At(s, x).ps[p].has) \/ (\E 
 
 (* ---------------------------------------------------------------- the extension object inside the node *)
 \* 1. a partial RPC from a peer whose handshake allows it
-Dispatch == E.sends /\ E.xpart.present /\ N.inOpen[E.p] /\ N.my.partial /\ HasExt(N1, E.p)
+\* MAY: both sides advertised the extension; MUST: and the handshake is complete in both directions on /meshsub/1.3.0 streams
+\* (in between - a peer on an older protocol that advertised the extension, no outbound stream at the moment - either is
+\* accepted and the reference follows the node; the state such an RPC leaves behind is judged by X04.k)
 InCB == \E c \in ObsCBs : c.k = "in" /\ c.from = E.p /\ c.t = E.xpart.t /\ c.g = E.xpart.g
+MayDispatch == E.sends /\ E.xpart.present /\ N.inOpen[E.p] /\ N.my.partial /\ HasExt(N1, E.p)
+MustDispatch == MayDispatch /\ N1.proto[E.p] = V13 /\ N.up[E.p] /\ N1.up[E.p]
+Dispatch == MayDispatch /\ (MustDispatch \/ InCB)
 NodeDecision == IF InCB \/ S.g[E.xpart.t][E.xpart.g].live THEN "" ELSE "dropped"
 R1 == IF Dispatch /\ E.xpart.t \in Topics /\ E.xpart.g \in Groups
         THEN RpcOp(S, E.p, E.xpart.t, E.xpart.g, E.xpart.hasMeta, SeqSet(E.xpart.meta), E.xpart.hasMsg, FALSE, NodeDecision)
@@ -155,7 +166,10 @@ CheckOut ==
                                        NViol("P_X04_g", "ext-flags", "", "", p, 0, 0)
              /\ \A i \in DOMAIN F : (F[i].part.present /\ ~HasExt(N1, p) /\ ~HasExt(N, p)) =>
                     NViol("P_X04_g", IF \E t \in Topics : Suppressed(N, E.prejoined, p, t) \/ Suppressed(N1, E.joined, p, t)
-                                       THEN "as-found-requests-partial-without-extension" ELSE "partial-rpc-to-peer-without-extension",
+                                       THEN "as-found-requests-partial-without-extension"
+                                     \* state of an earlier connection that X04-F3 left behind: the application is still offered the peer
+                                     ELSE IF F[i].part.t \in Topics /\ F[i].part.g \in Groups /\ S.g[F[i].part.t][F[i].part.g].ps[p].has
+                                       THEN "as-found-rpc-from-leftover-state" ELSE "partial-rpc-to-peer-without-extension",
                           F[i].part.t, F[i].part.g, p, 0, 0)
              /\ \A i \in DOMAIN F : (F[i].testx /\ ~(N.my.test /\ (N1.rec[p].test \/ N.rec[p].test))) =>
                                        NViol("P_X04_g", "test-rpc-to-peer-without-extension", "", "", p, 0, 0)
@@ -195,7 +209,7 @@ CheckIn ==
 \* i: dispatch of the extension RPCs
 CheckDispatch ==
     /\ (E.sends /\ E.xpart.present) =>
-         /\ (Dispatch /\ ~InCB /\ E.xpart.t \in Topics /\ E.xpart.g \in Groups) =>
+         /\ (MustDispatch /\ ~InCB /\ E.xpart.t \in Topics /\ E.xpart.g \in Groups) =>
                LET dT == IF S.g[E.xpart.t][E.xpart.g].live THEN "" ELSE DecisionTrue(S, E.xpart.t, E.p)
                    dA == IF S.g[E.xpart.t][E.xpart.g].live THEN "" ELSE Decision(S, E.xpart.t, E.p)
                IN  dT = "" => NViol("P_X04_i", IF dA # "" THEN "as-found-drift-drop" ELSE "rpc-not-dispatched", E.xpart.t, E.xpart.g, E.p, 0, 0)
@@ -205,7 +219,7 @@ CheckDispatch ==
                IN  /\ dT # "" => NViol("P_X04_c", IF Decision(S, E.xpart.t, E.p) = "" THEN "as-found-drift-accept" ELSE "accepted-beyond-limit",
                                        E.xpart.t, E.xpart.g, E.p, "", dT)
                    /\ (dT = "" /\ dS # "") => NViol("P_X04_c", "as-found-limit-reset-on-close", E.xpart.t, E.xpart.g, E.p, "", dS)
-         /\ (~Dispatch /\ InCB) =>
+         /\ (~MayDispatch /\ InCB) =>
                NViol("P_X04_i", IF ~N.my.partial THEN "dispatched-without-local-extension" ELSE "dispatched-without-handshake", E.xpart.t, E.xpart.g, E.p, 0, 0)
     /\ \A i \in DOMAIN E.testrecv :
          LET p == E.testrecv[i]
@@ -217,11 +231,11 @@ CheckDispatch ==
 MsgTo(p, m) == \E f \in SeqSet(E.frames) : f.p = p /\ \E k \in DOMAIN f.msgs : f.msgs[k].m = m
 CheckSuppress ==
     /\ \A f \in SeqSet(E.frames) :
-         /\ \A k \in DOMAIN f.msgs : (f.msgs[k].t \in Topics /\ Suppressed(N, E.prejoined, f.p, f.msgs[k].t) /\ Suppressed(N1, E.joined, f.p, f.msgs[k].t)) =>
+         /\ \A k \in DOMAIN f.msgs : (f.msgs[k].t \in Topics /\ PartialPeer(N, E.prejoined, f.p, f.msgs[k].t) /\ PartialPeer(N1, E.joined, f.p, f.msgs[k].t)) =>
                NViol("P_X04_j", "full-message-to-partial-peer", f.msgs[k].t, "", f.p, 0, 0)
-         /\ \A k \in DOMAIN f.ihave : (f.ihave[k] \in Topics /\ Suppressed(N, E.prejoined, f.p, f.ihave[k]) /\ Suppressed(N1, E.joined, f.p, f.ihave[k])) =>
+         /\ \A k \in DOMAIN f.ihave : (f.ihave[k] \in Topics /\ PartialPeer(N, E.prejoined, f.p, f.ihave[k]) /\ PartialPeer(N1, E.joined, f.p, f.ihave[k])) =>
                NViol("P_X04_j", "ihave-to-partial-peer", f.ihave[k], "", f.p, 0, 0)
-         /\ (E.a = "msg" /\ f.idw > 0 /\ E.t \in Topics /\ MyReq(E.prejoined, E.t) /\ PeerSup(N, f.p, E.t)) =>
+         /\ (E.a = "msg" /\ f.idw > 0 /\ E.t \in Topics /\ MyReq(E.prejoined, E.t) /\ PeerSup(N, f.p, E.t) /\ HasExt(N, f.p)) =>
                NViol("P_X04_j", "idontwant-to-partial-peer", E.t, "", f.p, 0, 0)
     \* ... and everybody else is served as usual
     /\ (E.a \in {"publish", "msg"} /\ E.t \in Topics /\ E.served) =>
@@ -299,10 +313,15 @@ NTags(r1, r2, r4) ==
         \cup tag(E.a = "ppub" /\ \E x \in r2.sent : x.hasMsg, "publish-partial-with-message") \cup tag(E.a = "ppub" /\ \E x \in r2.sent : ~x.hasMsg, "publish-partial-metadata-only")
         \cup tag(E.a = "ppub" /\ \E p \in BasePeers(E.t) : p \notin PubMesh /\ N.rec[p].has, "mesh-peer-excluded-from-partial")
         \cup tag(E.a = "ppub" /\ PubMesh # MeshIdeal(E.t), "partial-to-peer-without-ext-seen")
+        \cup tag(E.a = "ppub" /\ N.my.partial /\ MeshExtra(E.t) # {}, "requester-without-ext-in-mesh")
         \cup tag(E.a = "ppub" /\ \E p \in MeshIdeal(E.t) : ~PeerReq(N, p, E.t), "supporter-gets-metadata")
         \cup tag(E.a = "hb" /\ E.hb = 1 /\ \E c \in r4.cb : c.k = "gossip", "gossip-wired") \cup tag(E.a = "hb" /\ r4.sent # {}, "gossip-rpc-sent")
         \cup tag(E.a = "hb" /\ E.hb = 1 /\ r4.gh.del # {}, "expiry-wired") \cup tag(E.a = "hb" /\ E.hb = 1 /\ \E x \in TG : At(r4.S, x).live, "ttl-countdown-wired")
         \cup tag(Dispatch /\ InCB /\ ~N.up[E.p] /\ ~N1.up[E.p], "state-without-outbound-stream-seen")
+        \cup tag(MayDispatch /\ ~N.up[E.p] /\ ~N1.up[E.p], "partial-rpc-without-outbound-stream")
+        \cup tag(MayDispatch /\ N1.proto[E.p] # V13, "partial-rpc-from-old-protocol-peer-with-ext")
+        \cup tag(\E p \in Closers : RefHasState(S, p) /\ ~N1.inOpen[p], "outbound-closed-after-inbound")
+        \cup tag(\E p \in Closers : RefHasState(S, p) /\ N1.inOpen[p], "outbound-closed-inbound-alive")
         \cup tag(\E p \in Closers : RefHasState(S, p) /\ ~ObsHasState(p), "close-wired") \cup tag(\E p \in Closers : Leftover(p), "close-leak-seen")
         \cup tag(E.a \in {"publish", "msg"} /\ E.t \in Topics /\ \E p \in MeshOf(E.pretpeers, E.t) : N.up[p] /\ Suppressed(N, E.prejoined, p, E.t) /\ ~MsgTo(p, E.m), "full-message-suppressed")
         \cup tag(E.a \in {"publish", "msg"} /\ \E p \in Peers : MsgTo(p, E.m), "full-message-sent")
@@ -320,7 +339,8 @@ NStep == /\ E.e = "step"
                 /\ CheckGroups(r4) /\ CheckCounters(r4)
                 /\ PrintT(<<"NSTEP", ToJson([scn |-> E.scn, i |-> E.i, a |-> E.a, tags |-> NTags(r1, r2, r4)])>>)
                 /\ S' = r4.S
-                /\ N' = N1
+                /\ N' = [N1 EXCEPT !.pend = {b \in (N.pend \ ObsPartialAll) \cup {c \in (r2.sent \cup r4.sent) \ ObsPartialAll : ~N.up[c.p] \/ ~N1.up[c.p]} :
+                                                 ~(E.a = "down" /\ E.p = b.p)}]
          /\ UNCHANGED <<out, hist>>
 
 NReset == /\ E.e = "reset"
